@@ -48,6 +48,7 @@ func runC17(c *Ctx) {
 	// package-level variable (no-global-bytes-returned, decided together with the other rules
 	// about package-level state)
 	c19Globals(c)
+	c17InPlaceSites(c)
 }
 
 func c17UnsafeViews(c *Ctx) {
@@ -515,4 +516,61 @@ func c17WriteRetention(c *Ctx) {
 		}
 	}
 	c.verdict(rule, rule+"/Write", c.P.FuncPos(f), uniq(problems), "p is only a copy source; no field refers to it afterwards")
+}
+
+// inPlaceSites: who applies the in-place (un)masking helpers, and why the payload they are given
+// is not the caller's memory.
+var inPlaceSites = map[string]string{
+	"ws.MaskFrameWith":    "copies the payload into a fresh slice first (C02.frame-helpers)",
+	"ws.MaskFrameInPlace": "the documented in-place API itself: delegates to MaskFrameInPlaceWith with a fresh key",
+	"ws.UnmaskFrame":      "copies the payload into a fresh slice first (C02.frame-helpers)",
+	"wsutil.(ControlHandler).closeWithProtocolError": "the frame is built from NewCloseFrameBody's fresh body (C08.handler-close)",
+	"wsutil.(*Writer).WriteThrough":                  "the payload is a pooled copy of p (C06.writer-writethrough, C17.write-no-retention)",
+	"wsutil.writeFrame":                              "the payload is a pooled copy of p (C17.writemessage-wrappers)",
+}
+
+// c17InPlaceSites is the who-may-call rule for the helpers that XOR a frame's payload where it
+// lies: a new caller - a shortcut that builds a reply frame straight from a payload the
+// application was given, say - scribbles on memory the library has handed out or was lent.
+func c17InPlaceSites(c *Ctx) {
+	const rule = "C17.inplace-mask-call-sites"
+	c.R.Rule(rule, 6, "MaskFrameInPlace / MaskFrameInPlaceWith / UnmaskFrameInPlace are applied only where the payload is a copy or a fresh buffer of the library's own")
+	targets := map[*ssa.Function]bool{}
+	for _, n := range []string{"MaskFrameInPlace", "MaskFrameInPlaceWith", "UnmaskFrameInPlace"} {
+		if f := c.fn(rule, ws, n); f != nil {
+			targets[f] = true
+		}
+	}
+	if len(targets) != 3 {
+		return
+	}
+	for _, fn := range c.P.AllModuleFuncs() {
+		for _, b := range fn.Blocks {
+			for _, in := range b.Instrs {
+				call, ok := in.(ssa.CallInstruction)
+				if !ok || !targets[call.Common().StaticCallee()] {
+					continue
+				}
+				name := astFuncName(fn)
+				key := rule + "/" + name + "->" + call.Common().StaticCallee().Name()
+				pos := c.P.Pos(call.Pos())
+				why, found := "", false
+				for _, o := range c.ownerChain(name) {
+					if w, ok := inPlaceSites[o]; ok {
+						why, found = w, true
+						if o != name {
+							why += " (site moved into helper " + name + ", whose only caller is " + o + ")"
+						}
+						break
+					}
+				}
+				if found {
+					c.R.OK(rule, key, pos, why)
+				} else {
+					c.R.Fail(rule, key, pos, call.Common().StaticCallee().Name()+" is applied in "+name+", a site that was not reviewed: nothing establishes that the payload XORed in place there is a copy and not memory the caller (or an earlier ReadMessage) owns")
+				}
+				c.R.Sites++
+			}
+		}
+	}
 }
